@@ -408,6 +408,16 @@ func (c *c05) Step(w *sim.World, s *sim.Step) *Viol {
 			}
 		}
 	}
+	// (a burn message may name the module account itself as mint recipient: that, and nothing else, adds to it)
+	if s.Op.Kind == "tx" && s.OK() {
+		for _, cl := range effective(s.Calls, "mint") {
+			if cl.To == sim.ModuleAddr() && w.Model.L.Norm(cl.Denom) == denom {
+				if a, ok := new(big.Int).SetString(cl.Amount, 10); ok {
+					c.modGenesis = new(big.Int).Add(c.modGenesis, a)
+				}
+			}
+		}
+	}
 	// history invariants
 	led := w.Chain.RawKV(w.Chain.LedgKey)
 	if got := ledgerInt(led, "burned/"+denom); got.Cmp(c.sum) != 0 {
